@@ -112,6 +112,9 @@ def worker(prop, tier, idxs, outpath, seed):
             res['functions'] = sorted(tracer.seen) if tracer else []
             f.write(json.dumps(_jsonable(res)) + '\n')
             f.flush()
+            if os.environ.get('VERIF_PROGRESS') and (res['wall_s'] > 5 or res['unknown'] or res['unsupported']):
+                sys.stderr.write(f"[progress] cfg {i} {res['wall_s']:.1f}s unknown={res['unknown']} "
+                                 f"unsupported={res['unsupported'][:1]} {json.dumps(_jsonable(cfg))[:300]}\n")
     os._exit(0)
 
 
